@@ -1,4 +1,5 @@
-import Sudachi.Proofs.Total
+import Sudachi.Proofs.TotalSucceeds
+import Sudachi.Model.TotalIO
 /-!
 # C03 — Tokenization is total: never panics, succeeds within the documented limits
 
@@ -9,7 +10,8 @@ Model: `Model/Total.lean` (the fixed-width lattice `connect_node`/`insert`/`conn
 (`none` = `attempt to add with overflow` in a debug build), `asU16` the `as u16` cast.
 -/
 namespace C03
-open Total Oov EditM
+open Total EditM
+open Oov hiding NodeOk
 
 /-! ## clause "never … overflows": the `i32` accumulator of `connect_node` -/
 
@@ -407,7 +409,15 @@ Proved (partial): the stages compose without a panic when
 * `hkeep`  (variant `d6fix`) the word-info lookup / path-rewrite plugins keep the byte end of every node inside the text
            when the nodes they are given are (`concat_nodes` takes the end of the last node: C14 `join_*_coarsens`); that the
            nodes of `resolve_best_path` are inside the text is proved here (`resultNode_eb_le`).
-Under the same hypotheses an input of more than 49149 bytes gives `err TooLong` (`tokenize_too_long`, unconditional). -/
+Under the same hypotheses an input of more than 49149 bytes gives `err TooLong` (`tokenize_too_long`, unconditional).
+
+CAVEAT (why `tokenize_total_at_partial` is the usable form): `hlat`, `hbuf`, `hcost` and `hrowsz` quantify over ALL
+character sequences `chars`, not only over the rewritten text of `orig`.  For `hrowsz` this is not satisfiable by any
+realistic configuration: `toVit` casts the candidate ends `as u16`, so over a text of 65536² characters the boundaries
+`e₀ + 65536·k` (k < 65536) all count as `e₀`, and as soon as every position has a candidate (any configuration with a
+fallback provider; `exampleCfg` below) 65536 of them "end at" `e₀`.  The theorem is true but vacuous for such
+configurations.  `tokenize_total_at_partial` asks the same hypotheses only of the text that is reached (`Reaches`), where
+`hbound` caps the length; `tokenize_total` and `tokenize_succeeds` are proved from it. -/
 theorem tokenize_total_partial (v : SplitV) (lv : LenV) (cfg : Cfg) (orig : List Nat)
     (hplug : ∀ p ∈ cfg.inputPlugins, ∀ t, NoPanic (p t))
     (hutf : ∀ l0 l, startBuild orig = some l0 → rewriteInput lv cfg.inputPlugins l0 = .ok l →
@@ -507,12 +517,754 @@ theorem tokenize_total_partial (v : SplitV) (lv : LenV) (cfg : Cfg) (orig : List
                       (hkeep rfl (textOf l).length path path' hin h7)
                     rw [hms] at h8; cases h8
 
+/-- **The composition, relative to the text that is reached** (generalises `tokenize_total_partial`, same proof).  In
+`tokenize_total_partial` the hypotheses `hlat`, `hbuf`, `hcost`, `hrowsz` quantify over ALL character sequences, not only
+over the rewritten text of `orig`.  For `hrowsz` that is not satisfiable by any realistic configuration: over a text of
+65536² characters `toVit` casts the boundaries `e₀ + 65536·k` to the same `u16`, so 65536 candidates "end at" `e₀` as soon
+as every position has one.  Here every component hypothesis is asked only of a text `chars` that `Reaches lv cfg orig`
+(accepted by `start_build`, rewritten by the input-text plugins, decoded), which together with `hbound` makes them
+satisfiable (non-vacuity: `totalCfg` below).  The remaining hypotheses are those of `tokenize_total_partial`. -/
+theorem tokenize_total_at_partial (v : SplitV) (lv : LenV) (cfg : Cfg) (orig : List Nat)
+    (hplug : ∀ p ∈ cfg.inputPlugins, ∀ t, NoPanic (p t))
+    (hutf : ∀ l0 l, startBuild orig = some l0 → rewriteInput lv cfg.inputPlugins l0 = .ok l →
+      Wire.utf8Decode (textOf l) ≠ none)
+    (hlat : ∀ chars, Reaches lv cfg orig chars → NoPanic (buildLattice cfg.providers cfg.lex (cfg.mkBuf chars)))
+    (hbuf : ∀ chars, Reaches lv cfg orig chars → BufOk (cfg.mkBuf chars) ∧ (cfg.mkBuf chars).chars.length = chars.length)
+    (hcost : ∀ chars nodes, Reaches lv cfg orig chars → buildLattice cfg.providers cfg.lex (cfg.mkBuf chars) = .ok nodes →
+      ∀ x ∈ nodes, -32768 ≤ x.c ∧ x.c ≤ 32767)
+    (hconn : I16Conn cfg.conn)
+    (hbound : ∀ chars, Reaches lv cfg orig chars → chars.length ≤ 32767)
+    (hrowsz : ∀ chars nodes, Reaches lv cfg orig chars → buildLattice cfg.providers cfg.lex (cfg.mkBuf chars) = .ok nodes →
+      ∀ e, (nodes.map toVit).countP (fun n => n.e == e) ≤ 65535)
+    (hrew : ∀ path, NoPanic (cfg.rewrite path))
+    (hsplit : v = .cur → ∀ text path path', cfg.rewrite path = .ok path' →
+      NoPanic (splitPath .cur (b2c text) (c2b text) path'))
+    (hkeep : v = .d6fix → ∀ (nb : Nat) path path', (∀ q ∈ path, q.eb ≤ nb) → cfg.rewrite path = .ok path' →
+      ∀ p ∈ path', p.1.eb ≤ nb) :
+    NoPanic (tokenize v lv cfg orig) := by
+  intro w h
+  unfold tokenize at h
+  cases h0 : startBuild orig with
+  | none => rw [h0] at h; simp at h
+  | some l0 =>
+    rw [h0] at h; simp only [] at h
+    cases h1 : rewriteInput lv cfg.inputPlugins l0 with
+    | err k => rw [h1] at h; simp at h
+    | panic w' => exact rewriteInput_noPanic lv _ _ hplug w' h1
+    | ok l =>
+      rw [h1] at h; simp only [] at h
+      cases h2 : Wire.utf8Decode (textOf l) with
+      | none => exact hutf l0 l h0 h1 h2
+      | some chars =>
+        rw [h2] at h; simp only [] at h
+        split at h
+        · simp at h
+        · rename_i hne0
+          have hne : chars.isEmpty = false := by
+            cases hc : chars.isEmpty with
+            | true => exact absurd hc hne0
+            | false => rfl
+          have hpos : 1 ≤ chars.length := by
+            cases chars with
+            | nil => simp at hne
+            | cons _ _ => simp
+          cases h3 : buildLattice cfg.providers cfg.lex (cfg.mkBuf chars) with
+          | err k => rw [h3] at h; simp at h
+          | panic w' => exact hlat chars ⟨l0, l, h0, h1, h2⟩ w' h3
+          | ok nodes =>
+            rw [h3] at h; simp only [] at h
+            have hr : Reaches lv cfg orig chars := ⟨l0, l, h0, h1, h2⟩
+            have hlen := hbound chars hr
+            have hnodes : ∀ n ∈ nodes.map toVit, NodeOk chars.length n := by
+              intro n hn
+              obtain ⟨x, hx, rfl⟩ := List.mem_map.mp hn
+              obtain ⟨a1, a2⟩ := C03.candidates_inside_text cfg.providers cfg.lex (cfg.mkBuf chars) (hbuf chars hr).1 nodes h3 x hx
+              rw [(hbuf chars hr).2] at a2
+              obtain ⟨c1, c2⟩ := hcost chars nodes hr h3 x hx
+              simp only [NodeOk, toVit]
+              rw [asU16_id x.b (by omega), asU16_id x.e (by omega)]
+              exact ⟨a1, a2, c1, c2⟩
+            obtain ⟨rows, ents, hb1, hinv, _⟩ :=
+              C03.cost_no_overflow_partial cfg.conn hconn chars.length hlen (nodes.map toVit) hnodes
+            rw [hb1] at h; simp only [] at h
+            cases h4 : connectEos addI32 I32_MAX cfg.conn rows chars.length with
+            | err k => rw [h4] at h; simp at h
+            | panic w' =>
+              rcases connectEos_ok cfg.conn hconn chars.length hlen rows hinv with ⟨r, hr⟩ | hr
+              · rw [hr] at h4; cases h4
+              · rw [hr] at h4; cases h4
+            | ok r =>
+              obtain ⟨c, pe, pi⟩ := r
+              rw [h4] at h; simp only [] at h
+              obtain ⟨es, h5, _, path, h6⟩ := C03.lattice_index_in_range addI32 cfg.conn chars.length ⟨hpos, by omega⟩
+                (nodes.map toVit) (fun n hn => ⟨(hnodes n hn).1, (hnodes n hn).2.1⟩)
+                (hrowsz chars nodes hr h3) rows ents c pe pi hb1 h4 (textOf l)
+                (utf8Decode_length_le _ (textOf l) chars (Nat.le_refl _) h2)
+              rw [h5] at h; simp only [] at h
+              rw [h6] at h; simp only [] at h
+              cases h7 : cfg.rewrite path with
+              | err k => rw [h7] at h; simp at h
+              | panic w' => exact hrew path w' h7
+              | ok path' =>
+                rw [h7] at h; simp only [] at h
+                cases h8 : splitPath v (b2c (textOf l)) (c2b (textOf l)) path' with
+                | err k => rw [h8] at h; simp at h
+                | ok ms => rw [h8] at h; simp at h
+                | panic w' =>
+                  cases v with
+                  | cur => exact hsplit rfl (textOf l) path path' h7 w' h8
+                  | d6fix =>
+                    have hin : ∀ q ∈ path, q.eb ≤ (textOf l).length := by
+                      intro q hq
+                      obtain ⟨ent, _, hf⟩ := mapM_mem _ es path h6 q hq
+                      exact (resultNode_eb_le (textOf l) ent q hf).2
+                    obtain ⟨ms, hms⟩ := splitPath_d6fix_ok (b2c (textOf l)) (c2b (textOf l)) (textOf l).length
+                      (tables_of_text (textOf l) (nchars_pos_of_utf8 (textOf l) chars h2 hne)) path'
+                      (hkeep rfl (textOf l).length path path' hin h7)
+                    rw [hms] at h8; cases h8
+
+/-! ## the composition with the component hypotheses discharged -/
+
+/-- **The lattice builder never panics** (the component lemma `tokenize_total_partial` assumed as `hlat`).  For a buffer
+with the shape `InputBuffer::build` guarantees (`Oov.Buf.WF`: one class word, one run length and one word-start flag per
+character, every run at least 1 and ending inside the text — C13 `built_buffer_well_formed`), at least one OOV provider
+(`hprov`: `oov_providers.last().unwrap()` — the loader refuses a configuration without one) and every regex provider the
+repaired one (`hregex`; false for the pinned provider: `regex_empty_match_counterexample`), `build_lattice` does not
+panic, whatever the dictionary words, the provider settings and the text are. -/
+theorem lattice_builder_never_panics (ps : List Provider) (hprov : ps ≠ [])
+    (hregex : ∀ p ∈ ps, ∀ c, p = .regex c → c.skipEmpty = true) (lex : List Word) (buf : Buf) (hwf : buf.WF) :
+    NoPanic (buildLattice ps lex buf) :=
+  buildLattice_noPanic ps hprov hregex lex buf hwf
+
+/-- `hprov` is needed: with an empty provider list a position without dictionary word reaches `last().unwrap()` -/
+theorem lattice_builder_no_provider_counterexample :
+    buildLattice [] [] ⟨[98], [1], [1], [true]⟩ = .panic "unwrap" := by decide
+
+/-- **Clause "succeeds" for the lattice builder.**  With the fallback (Simple) provider configured last, the regex
+providers repaired and a buffer as `InputBuffer::build` produces it, `build_lattice` RETURNS a lattice for every text:
+no panic (`lattice_builder_never_panics`) and no `EosBosDisconnect` (C13 `lattice_never_disconnects`); every candidate
+lies inside the text (`candidates_inside_text`).  What is still missing for the full "succeeds" clause of `tokenize`
+(outcome `ok`, or `err TooLong` from the two length guards only): that `connect_eos` does not report `EosBosDisconnect`
+under `hbound` — it needs "every stored total is a real cost, not the sentinel" (every candidate begins where an earlier
+one ends: C13 `every_reachable_position_has_candidate`), i.e. `RowsInv` strengthened by connectedness; beyond `hbound`
+it is false (`cost_sentinel_counterexample`, D7b). -/
+theorem lattice_builder_succeeds (ps : List Provider) (cfg : SimpleCfg) (hlast : ps.getLast? = some (.simple cfg))
+    (hregex : ∀ p ∈ ps, ∀ c, p = .regex c → c.skipEmpty = true) (lex : List Word) (buf : Buf) (hwf : buf.WF) :
+    ∃ nodes, buildLattice ps lex buf = .ok nodes ∧ ∀ x ∈ nodes, x.b < x.e ∧ x.e ≤ buf.chars.length := by
+  obtain ⟨nodes, h⟩ := buildLattice_ok ps cfg hlast hregex lex buf hwf
+  exact ⟨nodes, h, buildLattice_cand ps lex buf (wf_bufOk buf hwf) nodes h⟩
+
+/-- **Every candidate's word cost is a configured cost** (the former hypothesis `hcost`): when every lexicon word cost
+and every provider cost (Simple / Regex `cost`, every MeCab `unk.def` line) is an `i16` value — they are parsed into
+`i16` fields — so is the cost of every node `build_lattice` inserts. -/
+theorem candidate_costs_i16 (ps : List Provider) (lex : List Word) (buf : Buf)
+    (hlexcost : ∀ w ∈ lex, I16 w.c) (hprovcost : ∀ p ∈ ps, ProviderCostOk p) (nodes : List Oov.Node)
+    (h : buildLattice ps lex buf = .ok nodes) : ∀ x ∈ nodes, -32768 ≤ x.c ∧ x.c ≤ 32767 :=
+  buildLattice_cost ps lex buf hlexcost hprovcost nodes h
+
+/-- **`InputBuffer::build` gives a well-formed buffer and is total** (the former hypothesis `hbuf`): whatever the
+run-table variant and word-start variant, a built buffer is `Buf.WF`, hence `BufOk`, and holds the characters it was
+built from; and over a strictly increasing class table — every compiled character definition is one
+(`CharCat.sinc_compile`, C17) — the build is defined for every text (`builtBuf` is that buffer written out). -/
+theorem built_buffer_ok (rv : Variant) (bowFix : Bool) (tab : List (Nat × Nat)) (chars : List Nat) :
+    (∀ buf, mkBufV rv bowFix tab chars = some buf → buf.WF ∧ BufOk buf ∧ buf.chars = chars) ∧
+    (CharCat.SInc (CharCat.fsts tab) → mkBufV rv bowFix tab chars = some (builtBuf rv bowFix tab chars)) :=
+  ⟨fun buf h => mkBufV_ok rv bowFix tab chars buf h, fun hs => mkBufV_total rv bowFix tab hs chars⟩
+
+/-- **`tokenize_total`: `do_tokenize` of the tree as it is now (D6 repaired: `v = d6fix`; either length guard `lv`)
+never panics**, under the hypotheses that genuinely remain.  Proved from `tokenize_total_at_partial` (the composition
+lemma `tokenize_total_partial` with its component hypotheses asked only of the text that is reached — `Reaches`); the
+hypotheses `hlat`, `hbuf`, `hcost`, `hsplit` are discharged (`lattice_builder_never_panics`, `built_buffer_ok`,
+`candidate_costs_i16`; `hsplit` concerns the variant `cur` only).
+
+Configuration hypotheses (what a successfully loaded dictionary/configuration satisfies):
+* `hmk`       the buffer is the modelled `InputBuffer::build` over a class table `tab` (any run-table variant `rv`, either
+              word-start variant `bowFix`).  For a compiled character definition the build is total
+              (`built_buffer_ok`, C17 `lookup_compile_eq_union`): see `tokenize_total_compiled`, where `hmk` is gone.
+* `hprov`     at least one OOV provider is configured (the loader refuses a configuration without one; without it
+              `lattice_builder_no_provider_counterexample`).
+* `hregex`    every regex provider is the repaired one (`skipEmpty`) — for the pinned provider the statement is false
+              (`regex_empty_match_counterexample`); the harness probes the tree for the variant.
+* `hlexcost`, `hprovcost`  word costs of the lexicon and of the provider settings are `i16` values (their field type).
+* `hconn`     the connection matrix holds `i16` values (its element type).
+Remaining component hypotheses:
+* `hplug`     the input-text plugins return edits or an error.  Bundled plugins: C07 `default_edits_ok`, `psm_edits_ok`,
+              `yomigana_edits_ok` + `edits_ok_apply_total` show their edit lists are sorted, non-overlapping and in range and
+              apply without a panic — on CODE POINTS; the glue to this model's byte-offset plugins (`edits_ok_bytes` +
+              UTF-8 encoding of the replacements) is not formalised.  Gone without plugins (`tokenize_total_no_plugins`).
+* `hutf`      the rewritten text is valid UTF-8: C08 `m2o_inv` (edits on character boundaries, whole-string replacements);
+              what is missing is the lemma "`resolve` of boundary-aligned edits with UTF-8 replacements on a UTF-8 text decodes".
+              Without plugins it is the `&str` guarantee of the input (`tokenize_total_no_plugins`).
+* `hbound`    **the rewritten text (`Reaches`) has at most 32767 characters** — D7, a FINDING of the Rust code: beyond it the `i32`
+              path cost can overflow (`cost_overflow_counterexample`; C02 `i32_lattice_eq_model` is stated for the same bound),
+              so the theorem is stated for ≤ 32767 characters; the documented limits (49149 / 65535 bytes) do not imply it.
+* `hrowsz`    fewer than 65536 candidates end at any one boundary of the rewritten text: nothing in the Rust code enforces
+              it; beyond it the `u16` row index of the back-pointer wraps (`u16_cast_wraps_counterexample`) and the walk may
+              read a wrong slot.  It follows from two bounds of the configuration — at most `K` candidates per position, each
+              at most `L` characters, `K·L ≤ 65535` (`rows_from_configuration_bounds`).
+* `hrew`      word-info lookup and the path-rewrite plugins do not panic: C14 proves termination (`rewrite_stack_total`,
+              repaired numeral loop) and the coarsening, not index safety of the plugin loops (see `rewriteOfStack_noPanic`
+              in `Proofs/TotalCompose.lean`: for a rewrite built from the C14 model this is exactly "`rewriteAll ≠ panic`").
+              Gone without path-rewrite plugin (`tokenize_total_no_plugins`).
+* `hkeep`     they keep every node's byte end inside the text when their input's are: follows from C14
+              `boundaries_subset` (every output end is an input end: `keep_of_ends`, `rewriteOfStack_keep`); kept as a
+              hypothesis because `Cfg.rewrite` is an arbitrary function here. -/
+theorem tokenize_total (lv : LenV) (cfg : Cfg) (orig : List Nat)
+    (rv : Variant) (bowFix : Bool) (tab : List (Nat × Nat))
+    (hmk : ∀ chars, mkBufV rv bowFix tab chars = some (cfg.mkBuf chars))
+    (hprov : cfg.providers ≠ [])
+    (hregex : ∀ p ∈ cfg.providers, ∀ c, p = .regex c → c.skipEmpty = true)
+    (hlexcost : ∀ w ∈ cfg.lex, I16 w.c)
+    (hprovcost : ∀ p ∈ cfg.providers, ProviderCostOk p)
+    (hconn : I16Conn cfg.conn)
+    (hplug : ∀ p ∈ cfg.inputPlugins, ∀ t, NoPanic (p t))
+    (hutf : ∀ l0 l, startBuild orig = some l0 → rewriteInput lv cfg.inputPlugins l0 = .ok l →
+      Wire.utf8Decode (textOf l) ≠ none)
+    (hbound : ∀ chars, Reaches lv cfg orig chars → chars.length ≤ 32767)
+    (hrowsz : ∀ chars nodes, Reaches lv cfg orig chars → buildLattice cfg.providers cfg.lex (cfg.mkBuf chars) = .ok nodes →
+      ∀ e, (nodes.map toVit).countP (fun n => n.e == e) ≤ 65535)
+    (hrew : ∀ path, NoPanic (cfg.rewrite path))
+    (hkeep : ∀ (nb : Nat) path path', (∀ q ∈ path, q.eb ≤ nb) → cfg.rewrite path = .ok path' →
+      ∀ p ∈ path', p.1.eb ≤ nb) :
+    NoPanic (tokenize .d6fix lv cfg orig) := by
+  have hb := fun chars => mkBufV_ok rv bowFix tab chars (cfg.mkBuf chars) (hmk chars)
+  refine tokenize_total_at_partial .d6fix lv cfg orig hplug hutf
+    (fun chars _ => buildLattice_noPanic cfg.providers hprov hregex cfg.lex _ (hb chars).1)
+    (fun chars _ => ⟨(hb chars).2.1, by rw [(hb chars).2.2]⟩)
+    (fun chars nodes _ h => buildLattice_cost cfg.providers cfg.lex _ hlexcost hprovcost nodes h)
+    hconn hbound hrowsz hrew (fun h => by cases h) (fun _ => hkeep)
+
+/-- **`hrowsz` from two bounds of the configuration.**  If at every position `build_lattice` inserts at most `K`
+candidates (`stepAt`), each beginning there and at most `L` characters long, then at most `K·L` candidates end at any
+one boundary; with `K·L ≤ 65535` and a text of at most 65535 characters (so that the `as u16` casts of the node ends are
+the identity) this is the hypothesis `hrowsz` of `tokenize_total`.  (For configurations without MeCab provider
+`K = |lexicon entries| + |providers| + 1` and `L` = the longest surface / regex `maxLength`: `rows_small` in
+`Proofs/TotalCompose.lean`, used for `totalCfg` below.) -/
+theorem rows_from_configuration_bounds (ps : List Provider) (lex : List Word) (buf : Buf) (K L : Nat)
+    (hK : ∀ p new, stepAt ps lex buf p = .ok new → new.length ≤ K ∧ ∀ x ∈ new, x.b = p ∧ x.b < x.e ∧ x.e ≤ x.b + L)
+    (hKL : K * L ≤ 65535) (hb : BufOk buf) (hn : buf.chars.length ≤ 65535)
+    (nodes : List Oov.Node) (h : buildLattice ps lex buf = .ok nodes) (e : Nat) :
+    (nodes.map toVit).countP (fun n => n.e == e) ≤ 65535 := by
+  have hin := buildLattice_cand ps lex buf hb nodes h
+  refine Nat.le_trans (countP_toVit nodes (fun x hx => by have := (hin x hx).2; omega) e) ?_
+  exact Nat.le_trans (buildLattice_rows ps lex buf K L hK nodes h e) hKL
+
+/-! ### non-vacuity of `tokenize_total`: one configuration that satisfies all its hypotheses at once -/
+
+/-- all hypotheses of `tokenize_total` (`hmk`, `hprov`, `hregex`, `hlexcost`, `hprovcost`, `hconn`, `hplug`, `hutf`,
+`hbound`, `hrowsz`, `hrew`, `hkeep`) hold together for `totalCfg` on the text `ab` with either length guard; `Reaches`,
+`I16`, `ProviderCostOk`, `SmallProvider` are inhabited on the way -/
+example (lv : LenV) :
+    (∀ chars, mkBufV .forward true [] chars = some (totalCfg.mkBuf chars)) ∧
+    totalCfg.providers ≠ [] ∧
+    (∀ p ∈ totalCfg.providers, ∀ c, p = .regex c → c.skipEmpty = true) ∧
+    (∀ w ∈ totalCfg.lex, I16 w.c) ∧
+    (∀ p ∈ totalCfg.providers, ProviderCostOk p) ∧
+    I16Conn totalCfg.conn ∧
+    (∀ p ∈ totalCfg.inputPlugins, ∀ t, NoPanic (p t)) ∧
+    (∀ l0 l, startBuild [97, 98] = some l0 → rewriteInput lv totalCfg.inputPlugins l0 = .ok l →
+      Wire.utf8Decode (textOf l) ≠ none) ∧
+    Reaches lv totalCfg [97, 98] [97, 98] ∧
+    (∀ chars, Reaches lv totalCfg [97, 98] chars → chars.length ≤ 32767) ∧
+    (∀ chars nodes, Reaches lv totalCfg [97, 98] chars →
+      buildLattice totalCfg.providers totalCfg.lex (totalCfg.mkBuf chars) = .ok nodes →
+      ∀ e, (nodes.map toVit).countP (fun n => n.e == e) ≤ 65535) ∧
+    (∀ path, NoPanic (totalCfg.rewrite path)) ∧
+    (∀ (nb : Nat) path path', (∀ q ∈ path, q.eb ≤ nb) → totalCfg.rewrite path = .ok path' →
+      ∀ p ∈ path', p.1.eb ≤ nb) := by
+  have hmk : ∀ chars, mkBufV .forward true [] chars = some (totalCfg.mkBuf chars) :=
+    fun chars => mkBufV_total .forward true [] (by simp [CharCat.fsts, CharCat.SInc]) chars
+  have hdec : ∀ chars, Reaches lv totalCfg [97, 98] chars → chars = [97, 98] := by
+    intro chars hr
+    have h := totalCfg_reaches lv _ _ hr
+    rw [utf8_ab] at h; cases h; rfl
+  refine ⟨hmk, by simp [totalCfg], ?_, ?_, ?_, ?_, ?_, ?_, ?_, ?_, ?_, ?_, ?_⟩
+  · intro p hp c hc
+    simp only [totalCfg, List.mem_cons, List.not_mem_nil, or_false] at hp
+    rcases hp with rfl | rfl
+    · cases hc; rfl
+    · cases hc
+  · intro w hw
+    simp only [totalCfg, List.mem_singleton] at hw
+    subst hw; simp [I16]
+  · intro p hp
+    simp only [totalCfg, List.mem_cons, List.not_mem_nil, or_false] at hp
+    rcases hp with rfl | rfl <;> simp [ProviderCostOk, I16]
+  · intro a b; constructor <;> simp [totalCfg]
+  · intro p hp t w h
+    simp only [totalCfg, List.mem_singleton] at hp
+    subst hp; cases h
+  · intro l0 l h0 h1
+    have hr : ∀ chars, Wire.utf8Decode (textOf l) = some chars → chars = [97, 98] :=
+      fun chars h2 => hdec chars ⟨l0, l, h0, h1, h2⟩
+    intro hn
+    cases h2 : Wire.utf8Decode (textOf l) with
+    | some cs => rw [h2] at hn; cases hn
+    | none =>
+      have : l = l0 := by
+        simp only [totalCfg, rewriteInput, commitV, List.isEmpty_nil, if_true] at h1
+        cases h1; rfl
+      subst this
+      rw [startBuild_text _ l h0] at h2
+      rw [utf8_ab] at h2; cases h2
+  · refine ⟨identFrom 0 [97, 98], identFrom 0 [97, 98], by decide, ?_, ?_⟩
+    · simp [totalCfg, rewriteInput, commitV]
+    · rw [textOf_identFrom]; exact utf8_ab
+  · intro chars hr; rw [hdec chars hr]; decide
+  · intro chars nodes hr h e
+    have hb := mkBufV_ok .forward true [] chars _ (hmk chars)
+    refine rows_small 8 _ _ _ hb.1 (by rw [hb.2.2, hdec chars hr]; decide) ?_ ?_ (by decide) nodes h e
+    · intro p hp
+      simp only [totalCfg, List.mem_cons, List.not_mem_nil, or_false] at hp
+      rcases hp with rfl | rfl
+      · show (8 : Nat) ≤ 8; omega
+      · exact ⟨builtBuf_nil_bow .forward true chars, by omega⟩
+    · intro w hw
+      simp only [totalCfg, List.mem_singleton] at hw
+      subst hw; simp
+  · intro path w h; cases h
+  · intro nb path path' hin h p hp
+    simp only [totalCfg] at h
+    cases h
+    obtain ⟨q, hq, rfl⟩ := List.mem_map.mp hp
+    exact hin q hq
+
+/-- … and the analysis of `ab` with that configuration runs through every stage: two morphemes (`a` from the lexicon,
+`b` from the Simple provider; the regex provider's empty match at `b` is skipped) -/
+example : morphCount (tokenize .d6fix .final totalCfg [97, 98]) = some 2 := by
+  simp [tokenize, startBuild, MAX_LENGTH, identFrom, totalCfg, rewriteInput, commitV, textOf, Wire.utf8Decode, builtBuf,
+    CharCat.denF, CharCat.DEFAULT, Oov.fillCatContinuity, Oov.fillCatContinuityForward, Oov.scan, Oov.countdown]
+  decide
+
+/-- non-vacuity of `lattice_builder_succeeds` / `lattice_builder_never_panics`: `totalCfg`'s providers end with the Simple
+provider, its regex provider is the repaired one, and its buffer over `ab` is well formed -/
+example : totalCfg.providers.getLast? = some (.simple ⟨0, 0, 100, 0⟩) ∧ (totalCfg.mkBuf [97, 98]).WF :=
+  ⟨rfl, (mkBufV_ok .forward true [] [97, 98] _
+    (mkBufV_total .forward true [] (by simp [CharCat.fsts, CharCat.SInc]) [97, 98])).1⟩
+
+/-- `tokenize_total` for a configuration whose buffer is built over a COMPILED character definition
+(`CharCat.compile rs`, any definition lines `rs`): the hypothesis `hmk` is replaced by the definitional equation
+`hbuild`; that the class look-up never leaves the table is C17 (`CharCat.lookup_eq_denF`, `sinc_compile`). -/
+theorem tokenize_total_compiled (lv : LenV) (cfg : Cfg) (orig : List Nat)
+    (rv : Variant) (bowFix : Bool) (rs : List CharCat.CatRange)
+    (hbuild : cfg.mkBuf = builtBuf rv bowFix (CharCat.compile rs))
+    (hprov : cfg.providers ≠ [])
+    (hregex : ∀ p ∈ cfg.providers, ∀ c, p = .regex c → c.skipEmpty = true)
+    (hlexcost : ∀ w ∈ cfg.lex, I16 w.c)
+    (hprovcost : ∀ p ∈ cfg.providers, ProviderCostOk p)
+    (hconn : I16Conn cfg.conn)
+    (hplug : ∀ p ∈ cfg.inputPlugins, ∀ t, NoPanic (p t))
+    (hutf : ∀ l0 l, startBuild orig = some l0 → rewriteInput lv cfg.inputPlugins l0 = .ok l →
+      Wire.utf8Decode (textOf l) ≠ none)
+    (hbound : ∀ chars, Reaches lv cfg orig chars → chars.length ≤ 32767)
+    (hrowsz : ∀ chars nodes, Reaches lv cfg orig chars → buildLattice cfg.providers cfg.lex (cfg.mkBuf chars) = .ok nodes →
+      ∀ e, (nodes.map toVit).countP (fun n => n.e == e) ≤ 65535)
+    (hrew : ∀ path, NoPanic (cfg.rewrite path))
+    (hkeep : ∀ (nb : Nat) path path', (∀ q ∈ path, q.eb ≤ nb) → cfg.rewrite path = .ok path' →
+      ∀ p ∈ path', p.1.eb ≤ nb) :
+    NoPanic (tokenize .d6fix lv cfg orig) :=
+  tokenize_total lv cfg orig rv bowFix (CharCat.compile rs)
+    (fun chars => by rw [hbuild]; exact mkBufV_compile_total rv bowFix rs chars)
+    hprov hregex hlexcost hprovcost hconn hplug hutf hbound hrowsz hrew hkeep
+
+/-- **No input-text plugin, no path-rewrite plugin** (`hnoplug`, `hnorew`: the word-info look-up yields any per-node unit
+table `units`): `hplug`, `hutf`, `hrew`, `hkeep` are gone.  What remains besides the configuration hypotheses: the input is
+valid UTF-8 (`hstr`: the `&str` type of the argument guarantees it), D7 (`hbound`, now on the input itself) and `hrowsz`. -/
+theorem tokenize_total_no_plugins (lv : LenV) (cfg : Cfg) (orig : List Nat)
+    (rv : Variant) (bowFix : Bool) (tab : List (Nat × Nat)) (units : EditM.NodeRange → List Nat)
+    (hnoplug : cfg.inputPlugins = [])
+    (hnorew : cfg.rewrite = fun p => .ok (p.map (fun n => (n, units n))))
+    (hmk : ∀ chars, mkBufV rv bowFix tab chars = some (cfg.mkBuf chars))
+    (hprov : cfg.providers ≠ [])
+    (hregex : ∀ p ∈ cfg.providers, ∀ c, p = .regex c → c.skipEmpty = true)
+    (hlexcost : ∀ w ∈ cfg.lex, I16 w.c)
+    (hprovcost : ∀ p ∈ cfg.providers, ProviderCostOk p)
+    (hconn : I16Conn cfg.conn)
+    (hstr : Wire.utf8Decode orig ≠ none)
+    (hbound : ∀ chars, Wire.utf8Decode orig = some chars → chars.length ≤ 32767)
+    (hrowsz : ∀ chars nodes, Wire.utf8Decode orig = some chars →
+      buildLattice cfg.providers cfg.lex (cfg.mkBuf chars) = .ok nodes →
+      ∀ e, (nodes.map toVit).countP (fun n => n.e == e) ≤ 65535) :
+    NoPanic (tokenize .d6fix lv cfg orig) := by
+  have htext : ∀ l0 l, startBuild orig = some l0 → rewriteInput lv cfg.inputPlugins l0 = .ok l → textOf l = orig := by
+    intro l0 l h0 h1
+    rw [hnoplug, rewriteInput_nil] at h1
+    cases h1
+    exact startBuild_text orig l0 h0
+  refine tokenize_total lv cfg orig rv bowFix tab hmk hprov hregex hlexcost hprovcost hconn ?_ ?_ ?_ ?_ ?_ ?_
+  · intro p hp; rw [hnoplug] at hp; cases hp
+  · intro l0 l h0 h1; rw [htext l0 l h0 h1]; exact hstr
+  · intro chars hr; exact hbound chars (reaches_nil lv cfg hnoplug orig chars hr)
+  · intro chars nodes hr; exact hrowsz chars nodes (reaches_nil lv cfg hnoplug orig chars hr)
+  · intro path w h; rw [hnorew] at h; cases h
+  · intro nb path path' hin h p hp
+    rw [hnorew] at h
+    cases h
+    obtain ⟨q, hq, rfl⟩ := List.mem_map.mp hp
+    exact hin q hq
+
+/-! ## clause "succeeds within the limits" -/
+
+/-- **`tokenize_succeeds`: within the cost bound `do_tokenize` returns morphemes or input-too-long, nothing else.**
+With the fallback (Simple) provider LAST (`hlast`), the hypotheses of `tokenize_total` (tree with D6 repaired; either length
+guard `lv`), and the plugins / the rewrite stage returning no error of their own (`hplugok`, `hrewok`, which replace `hplug`,
+`hrew`), the outcome of `tokenize` is `ok r` or `err TooLong` — never a panic (`tokenize_total`), never
+`EosBosDisconnect`:
+* `build_lattice` cannot report it (C13 `lattice_never_disconnects`; `lattice_builder_succeeds`);
+* `connect_eos` cannot report it under `hbound`: every candidate begins at 0 or where an earlier candidate ends (the
+  `reachable` test of the position loop: `buildLattice_chain`), the candidates are inserted in that order, so by induction
+  every stored total is a REAL cost within `± 65536·e` (`ConnRows` = `RowsInv` strengthened by connectedness:
+  `buildAll_conn`); `connect_node` over a non-empty row of real costs returns a cost `≤ 65536·len + 32768 < i32::MAX`
+  (`connGo_conn`), so it cannot coincide with the "not connected" sentinel, and some candidate ends at the end of the text
+  (`lattice_connects`).  Beyond `hbound` this is false: `cost_sentinel_counterexample` (D7b);
+* `fill_top_path`, `resolve_best_path`, `split_path` have no error exit (`topPath_ne_err`, `mapM_ne_err`, `splitPath_ne_err`).
+Moreover the input-too-long error comes from exactly two places (second conjunct): `start_build`, i.e. the input has more
+than 49149 bytes (`start_build_limit`; conversely `tokenize_too_long`), or a `commit` of `rewrite_input`.  For the repaired
+guard (`lv = final`) a commit of a non-empty `EditsOk` batch on a `Shape` buffer fails exactly when the rewritten text is
+longer than 65535 bytes (`commit_final_too_long_iff`), so for `lv = final`: **`err TooLong` iff the input exceeds 49149 bytes
+or a plugin's rewritten text exceeds 65535 bytes, `ok` otherwise** (within `hbound`).  For `lv = running` the commit may
+also fail on a transient length (`commit_transient_counterexample`: finding).  Without input-text plugin:
+`tokenize_succeeds_within_limits`. -/
+theorem tokenize_succeeds (lv : LenV) (cfg : Cfg) (orig : List Nat)
+    (rv : Variant) (bowFix : Bool) (tab : List (Nat × Nat)) (sc : SimpleCfg)
+    (hlast : cfg.providers.getLast? = some (.simple sc))
+    (hmk : ∀ chars, mkBufV rv bowFix tab chars = some (cfg.mkBuf chars))
+    (hregex : ∀ p ∈ cfg.providers, ∀ c, p = .regex c → c.skipEmpty = true)
+    (hlexcost : ∀ w ∈ cfg.lex, I16 w.c)
+    (hprovcost : ∀ p ∈ cfg.providers, ProviderCostOk p)
+    (hconn : I16Conn cfg.conn)
+    (hplugok : ∀ p ∈ cfg.inputPlugins, ∀ t, ∃ es, p t = .ok es)
+    (hutf : ∀ l0 l, startBuild orig = some l0 → rewriteInput lv cfg.inputPlugins l0 = .ok l →
+      Wire.utf8Decode (textOf l) ≠ none)
+    (hbound : ∀ chars, Reaches lv cfg orig chars → chars.length ≤ 32767)
+    (hrowsz : ∀ chars nodes, Reaches lv cfg orig chars → buildLattice cfg.providers cfg.lex (cfg.mkBuf chars) = .ok nodes →
+      ∀ e, (nodes.map toVit).countP (fun n => n.e == e) ≤ 65535)
+    (hrewok : ∀ path, ∃ path', cfg.rewrite path = .ok path')
+    (hkeep : ∀ (nb : Nat) path path', (∀ q ∈ path, q.eb ≤ nb) → cfg.rewrite path = .ok path' →
+      ∀ p ∈ path', p.1.eb ≤ nb) :
+    (∃ r, tokenize .d6fix lv cfg orig = .ok r) ∨
+    (tokenize .d6fix lv cfg orig = .err "TooLong" ∧
+      (orig.length > 49149 ∨ ∃ l0, startBuild orig = some l0 ∧ rewriteInput lv cfg.inputPlugins l0 = .err "TooLong")) := by
+  have hprov : cfg.providers ≠ [] := by intro h; rw [h] at hlast; cases hlast
+  have hnp := tokenize_total lv cfg orig rv bowFix tab hmk hprov hregex hlexcost hprovcost hconn
+    (fun p hp t w h => by obtain ⟨es, he⟩ := hplugok p hp t; rw [he] at h; cases h) hutf hbound hrowsz
+    (fun path w h => by obtain ⟨p', he⟩ := hrewok path; rw [he] at h; cases h) hkeep
+  have hb := fun chars => mkBufV_ok rv bowFix tab chars (cfg.mkBuf chars) (hmk chars)
+  cases h : tokenize .d6fix lv cfg orig with
+  | ok r => exact Or.inl ⟨r, rfl⟩
+  | panic w => exact absurd h (hnp w)
+  | err k =>
+    right
+    obtain ⟨hk, hsrc⟩ := tokenize_err_tooLong .d6fix lv cfg orig k hplugok hrewok
+      (fun chars k' _ => buildLattice_ne_err cfg.providers sc cfg.lex _ (hb chars).1 hlast k')
+      (by
+        intro chars nodes rows ents k' hr hne h3 h4 h5
+        have hl : (cfg.mkBuf chars).chars.length = chars.length := by rw [(hb chars).2.2]
+        obtain ⟨rows', ents', r, g1, g2⟩ := lattice_connects cfg.providers cfg.lex (cfg.mkBuf chars) (hb chars).1 cfg.conn
+          hconn (by rw [hl]; exact hbound chars hr) (by rw [hl]; intro e; exact hne (List.length_eq_zero_iff.mp e))
+          nodes h3 (buildLattice_cost cfg.providers cfg.lex _ hlexcost hprovcost nodes h3)
+        rw [hl] at g1 g2
+        rw [h4] at g1
+        cases g1
+        rw [g2] at h5
+        cases h5) h
+    subst hk
+    refine ⟨rfl, ?_⟩
+    rcases hsrc with h0 | h0
+    · exact Or.inl ((start_build_limit orig).1 h0)
+    · exact Or.inr h0
+
+/-- **Within the limits the analysis succeeds** (no input-text plugin, so the only length limit is the first one): an input
+of at most 49149 bytes — valid UTF-8 (`hstr`), at most 32767 characters (`hbound`, D7) — is analysed into morphemes:
+`tokenize` returns `ok`.  (Beyond 49149 bytes: `tokenize_too_long`.) -/
+theorem tokenize_succeeds_within_limits (lv : LenV) (cfg : Cfg) (orig : List Nat)
+    (rv : Variant) (bowFix : Bool) (tab : List (Nat × Nat)) (sc : SimpleCfg)
+    (hlast : cfg.providers.getLast? = some (.simple sc))
+    (hnoplug : cfg.inputPlugins = [])
+    (hmk : ∀ chars, mkBufV rv bowFix tab chars = some (cfg.mkBuf chars))
+    (hregex : ∀ p ∈ cfg.providers, ∀ c, p = .regex c → c.skipEmpty = true)
+    (hlexcost : ∀ w ∈ cfg.lex, I16 w.c)
+    (hprovcost : ∀ p ∈ cfg.providers, ProviderCostOk p)
+    (hconn : I16Conn cfg.conn)
+    (hlimit : orig.length ≤ 49149)
+    (hstr : Wire.utf8Decode orig ≠ none)
+    (hbound : ∀ chars, Wire.utf8Decode orig = some chars → chars.length ≤ 32767)
+    (hrowsz : ∀ chars nodes, Wire.utf8Decode orig = some chars →
+      buildLattice cfg.providers cfg.lex (cfg.mkBuf chars) = .ok nodes →
+      ∀ e, (nodes.map toVit).countP (fun n => n.e == e) ≤ 65535)
+    (hrewok : ∀ path, ∃ path', cfg.rewrite path = .ok path')
+    (hkeep : ∀ (nb : Nat) path path', (∀ q ∈ path, q.eb ≤ nb) → cfg.rewrite path = .ok path' →
+      ∀ p ∈ path', p.1.eb ≤ nb) :
+    ∃ r, tokenize .d6fix lv cfg orig = .ok r := by
+  have htext : ∀ l0 l, startBuild orig = some l0 → rewriteInput lv cfg.inputPlugins l0 = .ok l → textOf l = orig := by
+    intro l0 l h0 h1
+    rw [hnoplug, rewriteInput_nil] at h1
+    cases h1
+    exact startBuild_text orig l0 h0
+  rcases tokenize_succeeds lv cfg orig rv bowFix tab sc hlast hmk hregex hlexcost hprovcost hconn
+    (fun p hp => by rw [hnoplug] at hp; cases hp)
+    (fun l0 l h0 h1 => by rw [htext l0 l h0 h1]; exact hstr)
+    (fun chars hr => hbound chars (reaches_nil lv cfg hnoplug orig chars hr))
+    (fun chars nodes hr => hrowsz chars nodes (reaches_nil lv cfg hnoplug orig chars hr))
+    hrewok hkeep with h | ⟨_, h | ⟨l0, _, h1⟩⟩
+  · exact h
+  · omega
+  · rw [hnoplug, rewriteInput_nil] at h1; cases h1
+
+/-- non-vacuity of the new hypotheses of `tokenize_succeeds` / `tokenize_succeeds_within_limits`: `totalCfg` has the
+Simple provider last (`hlast`), its plugin and its rewrite stage return no error (`hplugok`, `hrewok`); `exampleCfg`'s
+relative without plugin (`hnoplug`) — the other hypotheses are those of `tokenize_total`, satisfied by `totalCfg` on `ab`
+(example above), where the analysis indeed returns `ok` (two morphemes, example above) -/
+example : totalCfg.providers.getLast? = some (.simple ⟨0, 0, 100, 0⟩) ∧
+    (∀ p ∈ totalCfg.inputPlugins, ∀ t, ∃ es, p t = .ok es) ∧
+    (∀ path, ∃ path', totalCfg.rewrite path = .ok path') ∧
+    ({ totalCfg with inputPlugins := [] } : Cfg).inputPlugins = [] ∧ ([97, 98] : List Nat).length ≤ 49149 := by
+  refine ⟨rfl, ?_, fun path => ⟨_, rfl⟩, rfl, by decide⟩
+  intro p hp t
+  simp only [totalCfg, List.mem_singleton] at hp
+  subst hp
+  exact ⟨[], rfl⟩
+
+/-! ## clause "every accessor of every returned morpheme is safe to call": the morphemes of a result -/
+
+/-- Full statement wanted (`morpheme_access_total`): *for every morpheme `m` of an `ok` result, `access orig r.tables m`
+(`begin`, `end`, `begin_c`, `end_c`, `surface`) does not panic.*  Proved here (partial): **`begin()`/`end()` (`morphRangeC`:
+`mod_c2b` then `m2o`) and the byte route of `surface()` (`morphRangeB`: `m2o[begin_bytes]..m2o[end_bytes]`) are defined for
+every morpheme of the result**, and `begin`/`end` lie inside the original text — because all four offsets of every morpheme
+lie inside the rewritten text (`InText`): the nodes of `resolve_best_path` do (`lattice_index_in_range`,
+`resultNode_inText`), the rewrite stage keeps that (`hkeepall`: every offset of an output node is an offset of an input node,
+C14 `boundaries_subset`), and the repaired split iterator only produces offsets read from `mod_b2c`/`mod_c2b` or taken from
+the parent (`splitPath_d6fix_inText`, for ANY unit lengths).  `hinv` is the C08 invariant of the result's offset map
+(`C08.m2o_inv`; without plugin `EditM.ident_inv`).  Missing for the full statement: `begin_c`/`end_c` (`to_orig_char_idx`:
+the `m2o` image of a character start is a character start of the original — C08 `Inv` has it, the glue is not done) and the
+slice `&original[a..b]` (`a ≤ b` on character boundaries: needs the units to begin/end on character starts,
+`split_d6fix_units_inside_parent`, and the rewrite stage to keep `begin ≤ end`); those stay tied by the `access`
+correspondence. -/
+theorem morpheme_offsets_defined_partial (lv : LenV) (cfg : Cfg) (orig : List Nat)
+    (rv : Variant) (bowFix : Bool) (tab : List (Nat × Nat))
+    (hmk : ∀ chars, mkBufV rv bowFix tab chars = some (cfg.mkBuf chars))
+    (hbound : ∀ chars, Reaches lv cfg orig chars → chars.length ≤ 32767)
+    (hrowsz : ∀ chars nodes, Reaches lv cfg orig chars → buildLattice cfg.providers cfg.lex (cfg.mkBuf chars) = .ok nodes →
+      ∀ e, (nodes.map toVit).countP (fun n => n.e == e) ≤ 65535)
+    (hkeepall : ∀ (t : List Nat) path path', (∀ q ∈ path, InText t q) → cfg.rewrite path = .ok path' →
+      ∀ p ∈ path', InText t p.1)
+    (r : Result) (h : tokenize .d6fix lv cfg orig = .ok r)
+    {st : Nat → Bool} {Bo : Nat → Prop} {N : Nat} (hinv : Inv st Bo N r.tables) :
+    ∀ m ∈ r.morphs, InText (textOf r.tables) m ∧
+      (∃ b e, morphRangeC r.tables m = some (b, e) ∧ b ≤ N ∧ e ≤ N) ∧ (∃ b e, morphRangeB r.tables m = some (b, e)) := by
+  have key : ∀ m ∈ r.morphs, InText (textOf r.tables) m := by
+    unfold tokenize at h
+    cases h0 : startBuild orig with
+    | none => rw [h0] at h; simp at h
+    | some l0 =>
+      rw [h0] at h; simp only [] at h
+      cases h1 : rewriteInput lv cfg.inputPlugins l0 with
+      | err k => rw [h1] at h; simp at h
+      | panic w' => rw [h1] at h; simp at h
+      | ok l =>
+        rw [h1] at h; simp only [] at h
+        cases h2 : Wire.utf8Decode (textOf l) with
+        | none => rw [h2] at h; simp at h
+        | some chars =>
+          rw [h2] at h; simp only [] at h
+          split at h
+          · cases h; intro m hm; cases hm
+          · rename_i hne0
+            have hne : chars.isEmpty = false := by
+              cases hc : chars.isEmpty with
+              | true => exact absurd hc hne0
+              | false => rfl
+            have hpos : 1 ≤ chars.length := by
+              cases chars with
+              | nil => simp at hne
+              | cons _ _ => simp
+            have hr : Reaches lv cfg orig chars := ⟨l0, l, h0, h1, h2⟩
+            have hb := mkBufV_ok rv bowFix tab chars (cfg.mkBuf chars) (hmk chars)
+            have hlen := hbound chars hr
+            have hnc := utf8Decode_length_le _ (textOf l) chars (Nat.le_refl _) h2
+            have hn1 := nchars_pos_of_utf8 (textOf l) chars h2 hne
+            cases h3 : buildLattice cfg.providers cfg.lex (cfg.mkBuf chars) with
+            | err k => rw [h3] at h; simp at h
+            | panic w' => rw [h3] at h; simp at h
+            | ok nodes =>
+              rw [h3] at h; simp only [] at h
+              have hnodes : ∀ n ∈ nodes.map toVit, n.b < n.e ∧ n.e ≤ chars.length := by
+                intro n hn
+                obtain ⟨x, hx, rfl⟩ := List.mem_map.mp hn
+                obtain ⟨a1, a2⟩ := buildLattice_cand cfg.providers cfg.lex (cfg.mkBuf chars) hb.2.1 nodes h3 x hx
+                rw [hb.2.2] at a2
+                simp only [toVit]
+                rw [asU16_id x.b (by omega), asU16_id x.e (by omega)]
+                exact ⟨a1, a2⟩
+              cases h4 : buildAll addI32 I32_MAX cfg.conn (nodes.map toVit) (reset chars.length) [] with
+              | err k => rw [h4] at h; simp at h
+              | panic w' => rw [h4] at h; simp at h
+              | ok r4 =>
+                obtain ⟨rows, ents⟩ := r4
+                rw [h4] at h; simp only [] at h
+                cases h5 : connectEos addI32 I32_MAX cfg.conn rows chars.length with
+                | err k => rw [h5] at h; simp at h
+                | panic w' => rw [h5] at h; simp at h
+                | ok r5 =>
+                  obtain ⟨c, pe, pi⟩ := r5
+                  rw [h5] at h; simp only [] at h
+                  obtain ⟨es, h6, hes, path, h7⟩ := C03.lattice_index_in_range addI32 cfg.conn chars.length ⟨hpos, by omega⟩
+                    (nodes.map toVit) hnodes (hrowsz chars nodes hr h3) rows ents c pe pi h4 h5 (textOf l) hnc
+                  rw [h6] at h; simp only [] at h
+                  rw [h7] at h; simp only [] at h
+                  have hpath : ∀ q ∈ path, InText (textOf l) q := by
+                    intro q hq
+                    obtain ⟨ent, hent, hf⟩ := mapM_mem _ es path h7 q hq
+                    obtain ⟨a1, a2⟩ := hes ent hent
+                    exact resultNode_inText (textOf l) ent q hf (by omega) (by omega)
+                  cases h8 : cfg.rewrite path with
+                  | err k => rw [h8] at h; simp at h
+                  | panic w' => rw [h8] at h; simp at h
+                  | ok path' =>
+                    rw [h8] at h; simp only [] at h
+                    cases h9 : splitPath .d6fix (b2c (textOf l)) (c2b (textOf l)) path' with
+                    | err k => rw [h9] at h; simp at h
+                    | panic w' => rw [h9] at h; simp at h
+                    | ok ms =>
+                      rw [h9] at h; simp only [] at h
+                      cases h
+                      exact splitPath_d6fix_inText (textOf l) hn1 path' ms h9 (hkeepall (textOf l) path path' hpath h8)
+  intro m hm
+  obtain ⟨k1, k2, k3, k4⟩ := key m hm
+  exact ⟨⟨k1, k2, k3, k4⟩, C03.morph_range_defined r.tables hinv m k1 k2, C03.morph_range_bytes_defined r.tables hinv m k3 k4⟩
+
+/-- non-vacuity of `hkeepall` and `hinv`: `totalCfg`'s rewrite stage keeps every offset, and the offset map of its
+result on `ab` (no edit) is the identity map, which satisfies the C08 invariant (`EditM.ident_inv`) -/
+example : (∀ (t : List Nat) path path', (∀ q ∈ path, InText t q) → totalCfg.rewrite path = .ok path' →
+      ∀ p ∈ path', InText t p.1) ∧
+    Inv isStart (BoOf [97, 98]) 2 (identFrom 0 [97, 98]) := by
+  refine ⟨?_, ident_inv [97, 98] (by simp)⟩
+  intro t path path' hin h p hp
+  simp only [totalCfg] at h
+  cases h
+  obtain ⟨q, hq, rfl⟩ := List.mem_map.mp hp
+  exact hin q hq
+
+/-! ### the configuration the driver EXECUTES (op `pipe`) is in the scope of `tokenize_total` -/
+
+/-- the bundled input-text plugins as the driver instantiates them (`TotalIO.plugin`: C07's `defaultEdits` / `psmEdits` /
+`yomiEdits` turned into byte edits) return edits or an error, never a panic — `hplug` for the executed configuration -/
+theorem pipe_plugins_never_panic (a : Array Normalize.Fact) (S : Normalize.Setup) (p : Char) (t : List Nat) :
+    NoPanic (TotalIO.plugin a S p t) := by
+  intro w h
+  unfold TotalIO.plugin at h
+  split at h
+  · cases h
+  · split at h <;> cases h
+
+/-- **`tokenize_total` for the configuration of a `C03 pipe` case line** (`TotalIO.mkCfg`: what `Model/TotalIO.lean` builds
+from the line and hands to `Total.tokenize`, so the theorem and the correspondence run are about the SAME instance of the
+SAME function).  Discharged for this instance: `hmk` (the buffer is `mkBufV` over the compiled `char.def`:
+`mkBufV_compile_total`), `hrew`, `hkeep` (word-info look-up without path-rewrite plugin) and, with
+`pipe_plugins_never_panic`, `hplug`.  What remains are the facts about the shipped dictionary/configuration (`hprov`,
+`hregex`, `hlexcost`, `hprovcost`, `hconn` — all decidable on a case line), `hutf`, and the two genuine bounds `hbound` (D7)
+and `hrowsz`. -/
+theorem pipe_configuration_total (lv : LenV) (orig : List Nat)
+    (plugins : List (List Nat → Outcome (List (Edit Nat)))) (rv : Variant) (bowFix : Bool)
+    (rs : List CharCat.CatRange) (ps : List Provider) (lex : List Word) (conn : Nat → Nat → Int)
+    (units : EditM.NodeRange → List Nat)
+    (hprov : ps ≠ [])
+    (hregex : ∀ p ∈ ps, ∀ c, p = .regex c → c.skipEmpty = true)
+    (hlexcost : ∀ w ∈ lex, I16 w.c)
+    (hprovcost : ∀ p ∈ ps, ProviderCostOk p)
+    (hconn : I16Conn conn)
+    (hplug : ∀ p ∈ plugins, ∀ t, NoPanic (p t))
+    (hutf : ∀ l0 l, startBuild orig = some l0 → rewriteInput lv plugins l0 = .ok l → Wire.utf8Decode (textOf l) ≠ none)
+    (hbound : ∀ chars, Reaches lv (TotalIO.mkCfg plugins rv bowFix rs ps lex conn units) orig chars → chars.length ≤ 32767)
+    (hrowsz : ∀ chars nodes, Reaches lv (TotalIO.mkCfg plugins rv bowFix rs ps lex conn units) orig chars →
+      buildLattice ps lex (TotalIO.mkBufOf rv bowFix (CharCat.compile rs) chars) = .ok nodes →
+      ∀ e, (nodes.map toVit).countP (fun n => n.e == e) ≤ 65535) :
+    NoPanic (tokenize .d6fix lv (TotalIO.mkCfg plugins rv bowFix rs ps lex conn units) orig) := by
+  have hbuild : (TotalIO.mkCfg plugins rv bowFix rs ps lex conn units).mkBuf = builtBuf rv bowFix (CharCat.compile rs) := by
+    funext chars
+    show TotalIO.mkBufOf rv bowFix (CharCat.compile rs) chars = _
+    unfold TotalIO.mkBufOf
+    rw [mkBufV_compile_total rv bowFix rs chars]
+  refine tokenize_total_compiled lv _ orig rv bowFix rs hbuild hprov hregex hlexcost hprovcost hconn hplug hutf hbound
+    hrowsz ?_ ?_
+  · intro path w h
+    simp only [TotalIO.mkCfg, TotalIO.rewriteOf] at h
+    cases h
+  · intro nb path path' hin h p hp
+    simp only [TotalIO.mkCfg, TotalIO.rewriteOf] at h
+    cases h
+    obtain ⟨q, hq, rfl⟩ := List.mem_map.mp hp
+    exact hin q hq
+
+/-- non-vacuity: a `pipe` configuration (no plugin, compiled empty `char.def`, Simple provider, one word) analyses `ab`
+into two morphemes through `TotalIO.mkCfg` -/
+example : morphCount (tokenize .d6fix .final
+    (TotalIO.mkCfg [] .forward true [] [.simple ⟨0, 0, 100, 0⟩] [⟨[97], 0, 0, 5⟩] (fun _ _ => 10) (fun _ => [])) [97, 98]) = some 2 := by
+  simp [tokenize, startBuild, MAX_LENGTH, identFrom, TotalIO.mkCfg, TotalIO.mkBufOf, TotalIO.rewriteOf, mkBufV_compile_total,
+    rewriteInput, textOf, Wire.utf8Decode, builtBuf, Oov.fillCatContinuity,
+    Oov.fillCatContinuityForward, Oov.scan, Oov.countdown]
+  decide
+
+/-! ### clause "never … overflows", "every accessor … is safe": `MorphemeList::get_internal_cost` -/
+
+/-- **NEW-3 on the model (variant `max` = the pinned code).**  `get_internal_cost` = `last.total_cost() - first.total_cost()`
+in `i32`, and a node made by `NodeSplitIterator` reports `i32::MAX`: for the path `東` (total −290) + `京都` (total −230,
+A-split into two units) in mode A the subtraction `i32::MAX − (−290)` overflows (`none` = `attempt to subtract with
+overflow`; directed case `internal-cost-split` replays it on the real list); in mode C (no unit table) and for the repaired
+tree (variant `parent`: units report the total of the word they come from) the same path gives −230 − (−290) = 60. -/
+theorem internal_cost_overflow_counterexample :
+    TotalIO.internalCostV true false [((0, 1), []), ((1, 3), [3, 3])] ⟨⟨0, 1, 0, 0, -300⟩, -290, 0, 0⟩ ⟨⟨1, 3, 0, 0, 50⟩, -230, 0, 0⟩ = none ∧
+    TotalIO.internalCostV true false [((0, 1), []), ((1, 3), [])] ⟨⟨0, 1, 0, 0, -300⟩, -290, 0, 0⟩ ⟨⟨1, 3, 0, 0, 50⟩, -230, 0, 0⟩ = some 60 ∧
+    TotalIO.internalCostV true true [((0, 1), []), ((1, 3), [3, 3])] ⟨⟨0, 1, 0, 0, -300⟩, -290, 0, 0⟩ ⟨⟨1, 3, 0, 0, 50⟩, -230, 0, 0⟩ = some 60 := by
+  refine ⟨by decide, by decide, by decide⟩
+
+/-- **The repaired accessor (variant `parent`) does not overflow inside the cost bound.**  When split units report the
+total of their parent, `get_internal_cost` subtracts two lattice totals.  The first path node is connected to BOS by one
+step, so its total is one connection cost plus one word cost (`hf`: within ±65536, both `i16`); the last one ends at
+`len ≤ 32766` characters and is within ±65536·len by `RowsInv` (`hl`, cf. `cost_no_overflow_partial`).  Then the checked
+subtraction succeeds, whatever the unit table is.  (For `len = 32767` the bound `65536·32767 + 65536 = 2^31` is one too
+large: the hypothesis is `len ≤ 32766`.) -/
+theorem internal_cost_inherit_in_range (tab : List ((Nat × Nat) × List Nat)) (f l : Entry) (len : Nat) (hlen : len ≤ 32766)
+    (hf : -65536 ≤ f.total ∧ f.total ≤ 65536)
+    (hl : -(65536 * (len : Int)) ≤ l.total ∧ l.total ≤ 65536 * (len : Int)) :
+    ∃ v, TotalIO.internalCostV true true tab f l = some v ∧ v = l.total - f.total := by
+  refine ⟨l.total - f.total, ?_, rfl⟩
+  have h1 : (len : Int) ≤ 32766 := by omega
+  have e1 : TotalIO.unitTotal true tab l = l.total := by simp [TotalIO.unitTotal]
+  have e2 : TotalIO.unitTotal true tab f = f.total := by simp [TotalIO.unitTotal]
+  unfold TotalIO.internalCostV
+  rw [e1, e2]
+  unfold addP addW I32_MAX
+  rw [if_pos rfl, if_pos (by constructor <;> omega)]
+  rfl
+
+/-- non-vacuity of `hf`/`hl`: the totals of the directed path (−290 after one step, −230 at the end of three characters) -/
+example : (-65536 ≤ (-290 : Int) ∧ (-290 : Int) ≤ 65536) ∧ (-(65536 * ((3 : Nat) : Int)) ≤ (-230 : Int) ∧ (-230 : Int) ≤ 65536 * ((3 : Nat) : Int)) := by
+  omega
+
 /-- non-vacuity of the composition: a configuration without plugins, a one-word lexicon and the Simple
 provider last, on the text `a` (one morpheme) and on the empty text (no morpheme) -/
 def exampleCfg : Cfg :=
   { inputPlugins := [], mkBuf := fun cs => ⟨cs, cs.map (fun _ => 1), cs.map (fun _ => 1), cs.map (fun _ => true)⟩,
     providers := [.simple ⟨0, 0, 100, 0⟩], lex := [⟨[97], 0, 0, 5⟩], conn := fun _ _ => 10,
     rewrite := fun p => .ok (p.map (fun n => (n, []))) }
+
+/-- non-vacuity of `ProviderCostOk` for a MeCab provider (one class, one `unk.def` line of cost 300), of the equation
+`hbuild` of `tokenize_total_compiled` (a configuration over the compiled empty definition) and of `hnoplug`/`hnorew`/`hstr`
+of `tokenize_total_no_plugins` (`exampleCfg` has no plugin; `ab` decodes) -/
+example : ProviderCostOk (.mecab ⟨[(1, ⟨1, true, false, 2⟩)], [(1, [⟨0, 0, 300, 0⟩])]⟩) ∧
+    ({ totalCfg with mkBuf := builtBuf .forward true (CharCat.compile []) } : Cfg).mkBuf
+      = builtBuf .forward true (CharCat.compile []) ∧
+    exampleCfg.inputPlugins = [] ∧
+    exampleCfg.rewrite = (fun p => .ok (p.map (fun n => (n, (fun _ => ([] : List Nat)) n)))) ∧
+    Wire.utf8Decode [97, 98] ≠ none := by
+  refine ⟨?_, rfl, rfl, rfl, by rw [utf8_ab]; simp⟩
+  intro kv hkv d hd
+  simp only [List.mem_singleton] at hkv
+  subst hkv
+  simp only [List.mem_singleton] at hd
+  subst hd
+  simp [I16]
 
 /-- non-vacuity of `hbuf`: the example configuration's buffer has the shape `BufOk` -/
 example : ∀ chars, BufOk (exampleCfg.mkBuf chars) ∧ (exampleCfg.mkBuf chars).chars.length = chars.length := by
